@@ -128,6 +128,87 @@ def copy_spec(workdir):
             shutil.copyfile(os.path.join(SPEC, f), os.path.join(workdir, f))
 
 
+def set_consts(cfg, consts):
+    """Overrides `  Name = value` lines of a TLC configuration."""
+    for k, v in (consts or {}).items():
+        cfg, n = re.subn(r"(?m)^(\s*)%s\s*=.*$" % re.escape(k), r"\g<1>%s = %s" % (k, v), cfg)
+        if n == 0:
+            cfg += "\nCONSTANT %s = %s\n" % (k, v)
+    return cfg
+
+
+def model_check(cfgname, workers=None, timeout=3000, module="MC.tla"):
+    """Exhaustive TLC run of one configuration of the design model. Returns (distinct states, generated, seconds, ok, tail)."""
+    wd = scratch()
+    try:
+        copy_spec(wd)
+        t0 = time.time()
+        rc, out = tlc(module, cfgname, wd, workers=workers or min(12, NCPU), timeout=timeout)
+        st, tr = tlc_stats(out)
+        ok = "Model checking completed. No error has been found." in out
+        return {"cfg": cfgname, "states": st, "transitions": tr, "secs": round(time.time() - t0, 1), "ok": ok,
+                "tail": "\n".join(out.splitlines()[-30:]) if not ok else ""}
+    finally:
+        shutil.rmtree(wd, ignore_errors=True)
+
+
+HWM_RE = re.compile(r'<<"HWM", (\d+), (\d+)>>')
+
+
+def conformance(trace_path, workdir, name, consts=None, max_rounds=6):
+    """TLC trace validation against the design model (TraceRcProxy). Returns dict(accepted, drift=[tid...], states)."""
+    lines = open(trace_path).read().splitlines(True)
+    tids = []
+    for ln in lines:
+        t = int(ln[7:ln.index(",")])
+        if not tids or tids[-1] != t:
+            tids.append(t)
+    res = {"accepted": 0, "drift": [], "states": 0, "transitions": 0, "unchecked": 0}
+    cur = lines
+    for rnd in range(max_rounds):
+        if not cur:
+            break
+        p = os.path.join(workdir, "%s-conf%d.ndjson" % (name, rnd))
+        open(p, "w").writelines(cur)
+        d = os.path.join(workdir, "tlc-%s-conf%d" % (name, rnd))
+        os.makedirs(d, exist_ok=True)
+        copy_spec(d)
+        cfg = open(os.path.join(d, "TraceRcProxy.cfg")).read().replace('"trace.ndjson"', json.dumps(p))
+        cfg = set_consts(cfg, consts)
+        open(os.path.join(d, "TraceRcProxy.cfg"), "w").write(cfg)
+        rc, out = tlc("TraceRcProxy.tla", "TraceRcProxy.cfg", d, workers=1, timeout=1800,
+                      javaopts=["-Dtlc2.tool.queue.IStateQueue=StateDeque", "-Xss64m", "-XX:ParallelGCThreads=4"])
+        st, tr = tlc_stats(out)
+        res["states"] += st
+        res["transitions"] += tr
+        m = None
+        for m in HWM_RE.finditer(out):
+            pass
+        shutil.rmtree(d, ignore_errors=True)
+        os.remove(p)
+        if not m:
+            raise Inconclusive("conformance run produced no high-water mark:\n" + "\n".join(out.splitlines()[-20:]))
+        hwm, total = int(m.group(1)), int(m.group(2))
+        curt = []
+        for ln in cur:
+            t = int(ln[7:ln.index(",")])
+            if not curt or curt[-1] != t:
+                curt.append(t)
+        if hwm >= total:
+            res["accepted"] += len(curt)
+            cur = []
+            break
+        stuck_tid = int(cur[hwm - 1][7:cur[hwm - 1].index(",")])
+        k = curt.index(stuck_tid)
+        res["accepted"] += k
+        res["drift"].append(stuck_tid)
+        cur = [ln for ln in cur if int(ln[7:ln.index(",")]) in set(curt[k + 1:])]
+    if cur:
+        left = set(int(ln[7:ln.index(",")]) for ln in cur)
+        res["unchecked"] = len(left)
+    return res
+
+
 STATS_RE = re.compile(r"(\d+) states generated, (\d+) distinct states found")
 
 
@@ -149,8 +230,7 @@ def validate_trace(trace_path, workdir, name, spec="PropTrace", cfgfile="PropTra
     os.makedirs(d, exist_ok=True)
     copy_spec(d)
     cfg = open(os.path.join(d, cfgfile)).read().replace('"trace.ndjson"', json.dumps(trace_path))
-    for k, v in (consts or {}).items():
-        cfg += "\nCONSTANT %s = %s" % (k, v)
+    cfg = set_consts(cfg, consts)
     open(os.path.join(d, cfgfile), "w").write(cfg)
     nlines = sum(1 for _ in open(trace_path))
     if nlines == 0:
@@ -172,7 +252,7 @@ def chunks(lst, n):
 
 
 def replay_and_validate(cfg, scenarios, workdir, tag, par=None, spec="PropTrace", cfgfile="PropTrace.cfg", consts=None,
-                        binary="worker", events_per_tlc=60000):
+                        binary="worker", events_per_tlc=60000, conform=None):
     """Replays scenarios on the real proxy (several workers in parallel) and validates every trace with TLC
     (few JVMs, many traces each). Returns violations (each with its scenario attached), counts and TLC statistics."""
     par = par or NCPU
@@ -221,13 +301,23 @@ def replay_and_validate(cfg, scenarios, workdir, tag, par=None, spec="PropTrace"
         raise Inconclusive("no scenario could be replayed: " + "; ".join(res["harness_errors"][:3]))
 
     def val(k):
-        return validate_trace(merged[k], workdir, "%s-v%d" % (tag, k), spec=spec, cfgfile=cfgfile, consts=consts)
+        v = validate_trace(merged[k], workdir, "%s-v%d" % (tag, k), spec=spec, cfgfile=cfgfile, consts=consts)
+        if conform is not None:
+            v["conf"] = conformance(merged[k], workdir, "%s-c%d" % (tag, k), consts=conform)
+        return v
 
     with ThreadPoolExecutor(max_workers=4) as ex:
         for k, v in enumerate(ex.map(val, range(len(merged)))):
             res["states"] += v["states"]
             res["transitions"] += v["transitions"]
             res["events"] += v["lines"]
+            if "conf" in v:
+                c = res.setdefault("conf", {"accepted": 0, "drift": [], "states": 0, "transitions": 0, "unchecked": 0})
+                c["accepted"] += v["conf"]["accepted"]
+                c["states"] += v["conf"]["states"]
+                c["transitions"] += v["conf"]["transitions"]
+                c["unchecked"] += v["conf"]["unchecked"]
+                c["drift"] += [(index.get(t) or {}).get("id", str(t)) for t in v["conf"]["drift"]]
             for x in v["viol"]:
                 x = dict(x)
                 x["scenario"] = index.get(x["tid"])
